@@ -70,6 +70,21 @@ func allSourcesSatisfy(p *Prog, v ssa.Value, leaf func(ssa.Value) bool, depth in
 		}
 		return true
 	case *ssa.UnOp:
+		// s.f where s is a local struct variable (possibly captured and assigned as a whole inside a closure)
+		if fa, isFA := x.X.(*ssa.FieldAddr); isFA {
+			if a, isA := fa.X.(*ssa.Alloc); isA {
+				vals, ok := structCellFieldSources(a, fa.Field)
+				if !ok || len(vals) == 0 {
+					return false
+				}
+				for _, s := range vals {
+					if !allSourcesSatisfy(p, s, leaf, depth+1, seen) {
+						return false
+					}
+				}
+				return true
+			}
+		}
 		switch cell := x.X.(type) {
 		case *ssa.Alloc:
 			vals, ok := cellStores(cell)
@@ -140,6 +155,86 @@ func allSourcesSatisfy(p *Prog, v ssa.Value, leaf func(ssa.Value) bool, depth in
 		return true
 	}
 	return false
+}
+
+// structCellFieldSources: every value that can be in field k of the local struct cell a: stores into the field, and
+// field k of struct literals assigned to the cell as a whole — in the function itself or in closures that capture it.
+func structCellFieldSources(a *ssa.Alloc, k int) ([]ssa.Value, bool) {
+	var out []ssa.Value
+	ok := true
+	var visit func(root ssa.Value, depth int)
+	visit = func(root ssa.Value, depth int) {
+		if root.Referrers() == nil || depth > 2 {
+			return
+		}
+		for _, r := range *root.Referrers() {
+			switch y := r.(type) {
+			case *ssa.Store:
+				if y.Addr != root {
+					ok = false
+					continue
+				}
+				// whole-struct assignment: field k of the literal it comes from
+				ld, isLd := y.Val.(*ssa.UnOp)
+				if !isLd {
+					ok = false
+					continue
+				}
+				lit, isA := ld.X.(*ssa.Alloc)
+				if !isA || lit.Referrers() == nil {
+					ok = false
+					continue
+				}
+				found := false
+				for _, r2 := range *lit.Referrers() {
+					if fa, isFA := r2.(*ssa.FieldAddr); isFA && fa.Field == k && fa.Referrers() != nil {
+						for _, r3 := range *fa.Referrers() {
+							if st, isSt := r3.(*ssa.Store); isSt {
+								out = append(out, st.Val)
+								found = true
+							}
+						}
+					}
+				}
+				if !found {
+					ok = false // the field keeps its zero value in that literal
+				}
+			case *ssa.FieldAddr:
+				if y.Field != k || y.Referrers() == nil {
+					continue
+				}
+				for _, r2 := range *y.Referrers() {
+					switch z := r2.(type) {
+					case *ssa.Store:
+						if z.Addr == ssa.Value(y) {
+							out = append(out, z.Val)
+						} else {
+							ok = false
+						}
+					case *ssa.UnOp, *ssa.DebugRef:
+					default:
+						ok = false
+					}
+				}
+			case *ssa.MakeClosure:
+				fn, _ := y.Fn.(*ssa.Function)
+				if fn == nil {
+					ok = false
+					continue
+				}
+				for i, b := range y.Bindings {
+					if b == root && i < len(fn.FreeVars) {
+						visit(fn.FreeVars[i], depth+1)
+					}
+				}
+			case *ssa.UnOp, *ssa.DebugRef:
+			default:
+				ok = false
+			}
+		}
+	}
+	visit(a, 0)
+	return out, ok
 }
 
 // lenExpr: v is len(x), or len(x) plus/minus something that is not itself read from a byte (a remaining length).
